@@ -10,7 +10,9 @@ Binding
  (a) spec -> code: TLC checks the naming theorems for every position to a depth bound plus seeded deep positions and
      expands the Url the real Builder records (both schemes, all formats) over those positions; the real
      PyramidIO.tile_path must give exactly those names, all distinct.
- (b) code -> spec: the real workflows (tile-study, tile-allsky, cascade, tile_fits TAN/TOAST, pipeline process_todos)
+ (b) code -> spec: the real workflows (tile-study, tile-allsky, cascade, tile-multi-tan, tile_fits TAN/TOAST with one
+     and with several inputs - multi-TAN on one grid, multi-WCS, and TOAST collections of images of different pixel
+     scales in every input order -, `toasty view --tile-only --tiling-method toast`, pipeline process_todos)
      are run on small synthetic inputs with PyramidIO.write_image / Image.save observed (which position was saved
      under which name); the observation (Url, FileType, TileLevels of index_rel.wtml, the tile files found, the
      saves) is handed to TLC, which evaluates the property's sentences (Judge).
@@ -473,8 +475,8 @@ def run(ctx):
     def lap(what):
         ctx.note("t_" + what, round(time.time() - t0, 1))
     ctx.rule = ("(a) positions = every (level, x, y) to depth 4 (thorough 5) plus seeded positions on levels 5..12 incl. the "
-                "corners, for both schemes and every supported format; (b) workflows on synthetic inputs, one observation "
-                "per step; (c) every maximal history of the tile_fits machine (all shorter histories are its prefixes and "
+                "corners, for both schemes and every supported format; (b) workflows on synthetic inputs (single images, multi-input TAN, "
+                "multi-input TOAST collections of different pixel scales in every input order), one observation per step; (c) every maximal history of the tile_fits machine (all shorter histories are its prefixes and "
                 "are checked after each call). distinct = distinct (scheme, format, position) / observation / history")
     indir = ctx.mkdtemp("inputs")
     inp = make_inputs(indir, quick)
